@@ -1734,19 +1734,11 @@ func r036(c *Ctx, r *R) {
 	posOf := func(g Guard, name string) (positive bool, ok bool) {
 		// the guard decides the sign of a quota: returns whether it
 		// establishes quota > 0 (true) or quota <= 0 (false)
-		bo, isB := g.Cond.(*ssa.BinOp)
-		if !isB {
-			return false, false
-		}
-		k, isK := constInt(bo.Y)
-		if quota[bo.X] != name || !isK {
-			return false, false
-		}
-		switch {
-		case bo.Op == token.GTR && k == 0, bo.Op == token.GEQ && k == 1:
-			return g.Branch, true
-		case bo.Op == token.LEQ && k == 0, bo.Op == token.LSS && k == 1:
-			return !g.Branch, true
+		switch signOf(g, func(v ssa.Value) bool { return quota[v] == name }) {
+		case 1:
+			return true, true
+		case 0:
+			return false, true
 		}
 		return false, false
 	}
@@ -2211,11 +2203,22 @@ func r099(c *Ctx, r *R) {
 			}
 			nDel++
 			empty := guardedBy(ci.Block(), func(gd Guard) bool {
-				x, k, tme, ok := eqConst(gd.Cond)
-				if !ok || tme != gd.Branch {
+				// len(record) == 0 in any of its spellings (== 0, < 1, <= 0,
+				// the false edge of > 0 / != 0)
+				x, op, k, ok := cmpIntConst(gd.Cond)
+				if !ok {
 					return false
 				}
-				if iv, isI := constant.Int64Val(k); !isI || iv != 0 {
+				zero := false
+				switch {
+				case op == token.EQL && k == 0, op == token.LEQ && k == 0, op == token.LSS && k == 1:
+					zero = gd.Branch
+				case op == token.NEQ && k == 0, op == token.GTR && k == 0, op == token.GEQ && k == 1:
+					zero = !gd.Branch
+				default:
+					return false
+				}
+				if !zero {
 					return false
 				}
 				lc, _ := originCall(x)
